@@ -242,10 +242,23 @@ Inductive probe_res :=
 | PDenied.             (* os.stat raised PermissionError (EACCES / EPERM) *)
 
 (* path = decode(hfields[5]); the " (deleted)" marker is cut when the marked path cannot be
-   shown to exist; the probe is consulted only for names that end in the marker; a
-   PermissionError leaves memory_maps (wrap_exceptions: AccessDenied).
+   shown to exist -- a PermissionError of the probe counts as that too (since /repo commit
+   b718f0c); the probe is consulted only for names that end in the marker.
    (Since /repo commit c15178c the name is no longer .strip()ped.) *)
 Definition clean_path (probe : bytes -> probe_res) (path : bytes) : outcome bytes :=
+  match path with
+  | [] => Val anon_path
+  | _ =>
+    if suffixb deleted_sfx path then
+      match probe path with
+      | PExists => Val path
+      | PAbsent | PDenied => Val (firstn (length path - 10) path)
+      end
+    else Val path
+  end.
+(* the code before commit b718f0c: the probe's PermissionError left memory_maps
+   (wrap_exceptions: AccessDenied) *)
+Definition clean_path_strict (probe : bytes -> probe_res) (path : bytes) : outcome bytes :=
   match path with
   | [] => Val anon_path
   | _ =>
